@@ -1,4 +1,5 @@
 import BnpVerif.Model.C10
+import BnpVerif.Gen.C10
 /-! C10 property theorems. Helper lemmas first; the property theorems are the ones listed in
 `Audit/C10.lean`. Everything is for an arbitrary genome (any number of chromosomes, any sizes,
 zero sizes included) and arbitrary entry lists. -/
@@ -649,5 +650,28 @@ theorem sorted_genome_order (ivs : List Iv) :
     have hb' : b.c = c := by simpa using (List.mem_filter.mp hb).2
     simp only [keyLe, Bool.or_eq_true, Bool.and_eq_true, decide_eq_true_eq] at h
     omega
+
+/-! ### the traced kernels are the model's kernels -/
+
+/-- **C10.traced_kernels** — obligations regenerated from the running code on every run: the expressions
+recorded by executing the real `GenomicIntervalsFull.clip`, `Geometry.clip` and `Geometry.extend_to_size`
+on symbolic columns (`Gen/C10.lean`) are, for all coordinates, the single-contig kernels of the model
+applied with the size of the row's *own* chromosome (`own`), never a neighbour's (`other`); and the
+window flanks observed on the running `get_windows` are the model's `flanks`. -/
+theorem traced_kernels :
+    (∀ (s e L other : Int) (sz : Nat) (fwd : Bool),
+      Gen.C10.clipGenomeS s e L sz other fwd = (clip1 sz s e).1 ∧
+      Gen.C10.clipGenomeE s e L sz other fwd = (clip1 sz s e).2 ∧
+      Gen.C10.clipGeometryS s e L sz other fwd = (clip1 sz s e).1 ∧
+      Gen.C10.clipGeometryE s e L sz other fwd = (clip1 sz s e).2 ∧
+      Gen.C10.extendGeometryS s e L sz other fwd = (extend1 sz L fwd s e).1 ∧
+      Gen.C10.extendGeometryE s e L sz other fwd = (extend1 sz L fwd s e).2) ∧
+    Gen.C10.flankTable.all (fun x => flanks (some x.1) 0 == (x.2.1, x.2.2)) = true ∧
+    Gen.C10.wsizeTable.all (fun x => flanks none x.1 == (x.2.1, x.2.2)) = true := by
+  refine ⟨?_, by decide, by decide⟩
+  intro s e L other sz fwd
+  simp only [Gen.C10.clipGenomeS, Gen.C10.clipGenomeE, Gen.C10.clipGeometryS, Gen.C10.clipGeometryE,
+    Gen.C10.extendGeometryS, Gen.C10.extendGeometryE, clip1, extend1]
+  cases fwd <;> simp <;> omega
 
 end C10
